@@ -34,7 +34,7 @@ use std::sync::atomic::{AtomicUsize, Ordering};
 use vharness::libwallet::api_impl::{foreign, owner};
 use vharness::libwallet::slate_versions::v4::SlateV4;
 use vharness::libwallet::{
-	InitTxArgs, Slate, SlateVersion, Slatepack, SlatepackAddress, Slatepacker, SlatepackerArgs,
+	InitTxArgs, Slate, SlateVersion, Slatepack, SlatepackAddress, SlatepackBin, Slatepacker, SlatepackerArgs,
 	VersionedBinSlate, VersionedSlate,
 };
 use vharness::prng::{seed_from_env, Prng};
@@ -441,6 +441,43 @@ fn prepare(scen: &Scen, keys: &[KeyEnt], case: &Value) -> Result<Prep, String> {
 		multi.push(json!([ks, v2, r3.class]));
 	}
 	let ek = if enc { rcpts[0] } else { 0 };
+	// structured rewrites of the clear part of an encrypted message — what anybody can do without
+	// a key (the armor check is recomputable): the optional clear fields are set to other values and
+	// the message re-encoded. Whatever a recipient then accepts must still be the original slate
+	// and the sender that was sealed inside.
+	if enc {
+		let dk = DalekSecretKey::from_bytes(&keys[ek].secret).unwrap();
+		if let Ok(Ok(sp0)) = guarded(|| packer(None).deser_slatepack(&bin, false).map_err(|e| e.to_string())) {
+			let other = keys.iter().find(|k| Some(&k.text) != sender.as_ref() && !rcpts.iter().any(|r| keys[*r].text == k.text));
+			let mut variants: Vec<(&str, Slatepack)> = vec![];
+			if let Some(o2) = other {
+				let mut v = sp0.clone();
+				v.sender = Some(o2.addr.clone());
+				variants.push(("clear sender set to a stranger's address", v));
+			}
+			{
+				let mut v = sp0.clone();
+				v.sender = Some(keys[ek].addr.clone());
+				variants.push(("clear sender set to the recipient's own address", v));
+			}
+			for (what, v) in variants {
+				let forged = match grin_wallet_util::byte_ser::to_bytes(&SlatepackBin(v)) {
+					Ok(b) => b,
+					Err(_) => continue,
+				};
+				let r = read_with(&o, Some(&dk), &forged);
+				let bad = r.class == 2 || r.slate == 2 || ((r.class == 0 || r.class == 3) && (r.slate == 3 || !r.sender_same));
+				if bad {
+					fails.push(format!(
+						"rewritten clear header ({}) is accepted (class {}) and yields {}",
+						what,
+						r.class,
+						if r.class == 2 || r.slate == 2 { "a panic" } else if r.slate == 3 { "a DIFFERENT slate" } else { "a different sender than the one sealed in the message" }
+					));
+				}
+			}
+		}
+	}
 	Ok(Prep {
 		case: case.clone(),
 		armor,
